@@ -26,6 +26,13 @@ const SHAPES: &[&str] = &[
     "enum X { r#type, r#match { r#fn: u8 } }",
     "enum X { A = 1, B = 2 }",
     "union X { a: u8, b: u32 }",
+    "struct Donn\u{e9}es { \u{e9}t\u{e9}: u8, \u{540d}\u{524d}: String }",
+    "enum \u{540d}\u{524d}<\u{3b1}> { \u{3b1}(\u{3b1}), \u{3b2} { \u{e9}: u8 } }",
+    "struct X<'a, 'b: 'a, T: 'a + ?Sized, const N: usize = 3>(&'a T, &'b [u8; N]) where 'b: 'a;",
+    "struct X<T = u8, U: Default = T>(T, U);",
+    "enum X { A(u8) = 1, B { a: u8 } = 2, C = 3 }",
+    "struct X(pub u8, pub(crate) String, pub(in crate::a) u8);",
+    "struct X { #[cfg(x)] a: u8, #[doc = \"d\"] b: u8 }",
 ];
 
 const EXTRA: &[(&str, &str, &str)] = &[
